@@ -398,7 +398,9 @@ def deep_cases():
 
 # ------------------------------------------------------------------ plumbing
 def with_items(impl, tuples):
-    """tuples (entry, tl, rl, src) -> case lines, the items coming from the real lexer"""
+    """tuples (entry, tl, rl, src) -> case lines `<entry> <tl|-> <rl> <hex source> <items>`, the items being
+    what the REAL lexer yields for (tl, source): the parser model runs on those (fast; isolates the parser
+    model from the lexer model).  `composed_sample` below runs the lexer model and the parser model composed."""
     tuples = list(dict.fromkeys(tuples))
     keys = list(dict.fromkeys((tl, src) for _, tl, _, src in tuples))
     lines = [f"{'-' if tl is None else tl} {hexs(src)}" for tl, src in keys]
@@ -411,9 +413,20 @@ def with_items(impl, tuples):
     return [f"{e} {'-' if tl is None else tl} {rl} {hexs(src)} {items[(tl, src)]}" for e, tl, rl, src in tuples]
 
 
+def composed_sample(ctx, cases, limit=3000, maxlen=160):
+    """a sample of the cases WITHOUT the items field: the model runner then lexes the source itself
+    (Lex/Fun.v lex_all / lex_limited composed with Parse/), so the composition is tied to the code as well"""
+    short = [" ".join(c.split(" ")[:4]) for c in cases if len(c.split(" ")[3]) <= 2 * maxlen]
+    short = list(dict.fromkeys(short))
+    if len(short) > limit:
+        short = short[:: max(1, len(short) // limit)]
+    return short
+
+
 def split_case(case):
-    e, tl, rl, hx, items = case.split(" ")
-    return e, (None if tl == "-" else int(tl)), int(rl), unhexs(hx), items
+    f = case.split(" ")
+    e, tl, rl, hx = f[:4]
+    return e, (None if tl == "-" else int(tl)), int(rl), unhexs(hx), (f[4] if len(f) > 4 else None)
 
 
 def describe(case):
